@@ -556,4 +556,37 @@ theorem penSpec3_psd (m1 m2 m3 : ℕ) (hm3 : 0 < m3) (la lb lc : ℚ) (P1 P2 P3 
   exact penSpec2_psd m1 (m2 * m3) la 1 P1 _ ha (by norm_num) h1
     (fun u => penSpec2_psd m2 m3 lb lc P2 P3 hb hc h2 h3 u) v
 
+theorem kron_fitted (m1 m2 n2 : ℕ) (B1 B2 : ℕ → ℕ → ℚ) (c1 c2 : ℕ → ℚ) (i1 i2 : ℕ) (hi2 : i2 < n2) :
+    fitted (m1 * m2) (kronB m2 n2 B1 B2) (kronVec m2 c1 c2) (i1 * n2 + i2)
+      = fitted m1 B1 c1 i1 * fitted m2 B2 c2 i2 := by
+  unfold fitted kronB kronVec
+  rw [sum_range_mul, Finset.sum_mul_sum]
+  apply Finset.sum_congr rfl; intro k1 _
+  apply Finset.sum_congr rfl; intro k2 hk2
+  obtain ⟨a1, a2⟩ := divmod_lin m2 k1 k2 (mem_range.mp hk2)
+  rw [Bases.kron_apply _ _ _ _ k1 k2 i1 i2 (mem_range.mp hk2) hi2, a1, a2]
+  ring
+
+theorem penSpec2_null (m1 m2 : ℕ) (la lb : ℚ) (P1 P2 : ℕ → ℕ → ℚ) (c1 c2 : ℕ → ℚ)
+    (h1 : ∀ k < m1, ∑ l ∈ range m1, P1 k l * c1 l = 0)
+    (h2 : ∀ k < m2, ∑ l ∈ range m2, P2 k l * c2 l = 0) (hm2 : 0 < m2)
+    (K : ℕ) (hK : K < m1 * m2) :
+    ∑ L ∈ range (m1 * m2), penSpec2 m2 la lb P1 P2 K L * kronVec m2 c1 c2 L = 0 := by
+  have hk1 : K / m2 < m1 := Nat.div_lt_of_lt_mul (by rw [Nat.mul_comm]; exact hK)
+  have hk2 : K % m2 < m2 := Nat.mod_lt _ hm2
+  rw [sum_range_mul]
+  have hterm : ∀ l1 ∈ range m1, ∀ l2 ∈ range m2,
+      penSpec2 m2 la lb P1 P2 K (l1 * m2 + l2) * kronVec m2 c1 c2 (l1 * m2 + l2)
+        = la * ((P1 (K / m2) l1 * c1 l1) * (if K % m2 = l2 then c2 l2 else 0))
+          + lb * ((if K / m2 = l1 then c1 l1 else 0) * (P2 (K % m2) l2 * c2 l2)) := by
+    intro l1 _ l2 hl2
+    obtain ⟨a1, a2⟩ := divmod_lin m2 l1 l2 (mem_range.mp hl2)
+    unfold penSpec2 kronVec
+    rw [a1, a2]
+    by_cases e2 : K % m2 = l2 <;> by_cases e1 : K / m2 = l1 <;> simp [e1, e2] <;> ring
+  rw [Finset.sum_congr rfl fun l1 h => Finset.sum_congr rfl fun l2 h' => hterm l1 h l2 h']
+  simp_rw [Finset.sum_add_distrib, ← Finset.mul_sum]
+  rw [← Finset.sum_mul, ← Finset.sum_mul, h1 _ hk1, h2 _ hk2]
+  ring
+
 end FDA.GLAM
